@@ -42,7 +42,34 @@ func ParseClause(s string) (clause, error) {
 	return clause{}, fmt.Errorf("no operator")
 }
 
+// num is the numeric value of a metadata field, whatever Go type the caller stored it with (a
+// number is a number: after a restart it comes back from JSON as float64 anyway).
+func num(v any) (float64, bool) {
+	switch x := v.(type) {
+	case float64:
+		return x, true
+	case float32:
+		return float64(x), true
+	case int:
+		return float64(x), true
+	case int32:
+		return float64(x), true
+	case int64:
+		return float64(x), true
+	case uint:
+		return float64(x), true
+	case uint32:
+		return float64(x), true
+	case uint64:
+		return float64(x), true
+	}
+	return 0, false
+}
+
 func eqMatch(field any, val string) bool {
+	if x, ok := num(field); ok {
+		field = x
+	}
 	switch f := field.(type) {
 	case string:
 		return f == val
@@ -82,7 +109,7 @@ func evalClause(cl clause, metas map[string]map[string]any) (map[string]bool, er
 			return nil, fmt.Errorf("non-numeric")
 		}
 		for id, m := range metas {
-			f, ok := m[cl.key].(float64)
+			f, ok := num(m[cl.key])
 			if !ok {
 				continue
 			}
